@@ -110,7 +110,10 @@ def run_tlc(module, cfg, wd, workers=8, timeout=1500, extra=None, env=None, heap
     """Run TLC on spec/<module>.tla with spec/<cfg>. Returns dict(rc, out, states, generated, violated, text)."""
     out = os.path.join(wd, out_name)
     md = os.path.join(wd, "md-" + out_name)
-    cmd = ["timeout", str(timeout), "java", "-XX:+UseParallelGC", f"-Xmx{heap}"]
+    # -Xss: TLC's worker threads evaluate deeply nested lazy values (sequence concatenations built by recursive
+    # operators) recursively; with the default 1 MB stacks MC_Schema overflowed in about one run out of six,
+    # depending on which worker met which value first.  The stack is reserved address space, not committed memory.
+    cmd = ["timeout", str(timeout), "java", "-XX:+UseParallelGC", f"-Xmx{heap}", "-Xss256m"]
     if java_opts:
         cmd += java_opts
     cmd += ["-cp", TLA_CP, "tlc2.TLC", "-workers", str(workers), "-metadir", md, "-cleanup",
